@@ -76,6 +76,7 @@ pub fn config(a: &Args) -> Config {
         inject: a.num("inject", 0) > 0,
         hang_secs: a.num("hang-secs", 20),
         max_viol_sigs: a.num("max-viol-sigs", 64) as usize,
+        grace_secs: a.num("grace-secs", 3),
     }
 }
 
